@@ -6,6 +6,7 @@ interpretation (`Model/PyPersist`) of the translated source
 `copy_traits` by induction on the slots.
 -/
 import TraitsVerif.Generated.PersistProg
+import TraitsVerif.Model.PyPersistC
 import TraitsVerif.Lemmas.PersistClone
 set_option linter.unusedSimpArgs false
 set_option linter.unusedVariables false
@@ -49,8 +50,20 @@ def iterModel (E : Env) (oS oD : Nat) (arg : Option CopyMode) (n : Nat) (a : Slo
       | .error _ => (dst, r.2.1, n1)
       | .ok (dst', n2) => (dst', r.2.1, n2)
 
-def FrameOK (tv mv : Val) (arg : Option CopyMode) (vars : Frame) : Prop :=
-  ∃ un x10 x11 x12 x13 x14, vars = ctFrame tv mv arg un x10 x11 x12 x13 x14
+/-- Does the iteration end in the bare `except:` (the slot is selected)? -/
+def iterFails (E : Env) (oS oD : Nat) (arg : Option CopyMode) (n : Nat) (a : Slot) : Bool :=
+  if a.decl.kind = .event then false
+  else
+    match copyValue E (effMode a.decl.copy arg) (readSlot E oS n a).2.2 (readSlot E oS n a).1 with
+    | .error _ => true
+    | .ok (v, n1) =>
+      match assignSlot E oD n1 ⟨a.decl, none⟩ v with
+      | .error _ => true
+      | .ok _ => false
+
+/-- The frame of `copy_traits` with `unassignable = un`. -/
+def FrameOK (tv mv : Val) (arg : Option CopyMode) (un : List String) (vars : Frame) : Prop :=
+  ∃ x10 x11 x12 x13 x14, vars = ctFrame tv mv arg un x10 x11 x12 x13 x14
 
 macro "pyp_exec" "[" ts:Lean.Parser.Tactic.simpLemma,* "]" : tactic =>
   `(tactic| simp [execB, callB, eval, evalAll, FS.ctx, getVar, attrOf, objMethod, cmpVals, doGetattr, doSetattr,
@@ -64,21 +77,21 @@ theorem mainBody_unfold : ∃ b, mainBody = b ∧ (forLoops copyTraitsFn.body).l
 
 local macro "fin_ref" E:ident oS:ident oD:ident n:ident a:ident "[" ts:Lean.Parser.Tactic.simpLemma,* "]" : tactic =>
   `(tactic| (rcases has : assignSlot $E $oD (readSlot $E $oS $n $a).2.2 ⟨($a).decl, none⟩ (readSlot $E $oS $n $a).1
-      with e | ⟨d', n2⟩ <;> pyp_exec [iterModel, FrameOK, has, $ts,*]))
+      with e | ⟨d', n2⟩ <;> pyp_exec [iterModel, iterFails, FrameOK, has, $ts,*]))
 
 local macro "fin_sh" E:ident oS:ident oD:ident n:ident a:ident "[" ts:Lean.Parser.Tactic.simpLemma,* "]" : tactic =>
   `(tactic| (match hcv : shallowV $E (readSlot $E $oS $n $a).2.2 (readSlot $E $oS $n $a).1 with
-      | .error e => pyp_exec [iterModel, FrameOK, hcv, $ts,*]
+      | .error e => pyp_exec [iterModel, iterFails, FrameOK, hcv, $ts,*]
       | .ok (v', n') =>
         rcases has : assignSlot $E $oD n' ⟨($a).decl, none⟩ v' with e | ⟨d', n2⟩ <;>
-          pyp_exec [iterModel, FrameOK, hcv, has, $ts,*]))
+          pyp_exec [iterModel, iterFails, FrameOK, hcv, has, $ts,*]))
 
 local macro "fin_dp" E:ident oS:ident oD:ident n:ident a:ident "[" ts:Lean.Parser.Tactic.simpLemma,* "]" : tactic =>
   `(tactic| (match hcv : deepcopyV (readSlot $E $oS $n $a).2.2 (readSlot $E $oS $n $a).1 with
-      | .error e => pyp_exec [iterModel, FrameOK, hcv, $ts,*]
+      | .error e => pyp_exec [iterModel, iterFails, FrameOK, hcv, $ts,*]
       | .ok (v', n') =>
         rcases has : assignSlot $E $oD n' ⟨($a).decl, none⟩ v' with e | ⟨d', n2⟩ <;>
-          pyp_exec [iterModel, FrameOK, hcv, has, $ts,*]))
+          pyp_exec [iterModel, iterFails, FrameOK, hcv, has, $ts,*]))
 
 set_option maxHeartbeats 4000000 in
 theorem body_spec (E : Env) (oS oD : Nat) (arg : Option CopyMode) (tv mv : Val) (hmv : mv = .none ∨ mv = .memo)
@@ -86,7 +99,8 @@ theorem body_spec (E : Env) (oS oD : Nat) (arg : Option CopyMode) (tv mv : Val) 
     (un : List String) (nm : String) (x11 x12 x13 x14 : Option Val) :
     let r := execB E oS oD mainBody ⟨a, ⟨a.decl, none⟩, n, ctFrame tv mv arg un (some (.name nm)) x11 x12 x13 x14, memo⟩
     (r.1 = .next ∨ r.1 = .cont) ∧ r.2.b = (iterModel E oS oD arg n a).1 ∧ r.2.a = (iterModel E oS oD arg n a).2.1 ∧
-      r.2.n = (iterModel E oS oD arg n a).2.2 ∧ FrameOK tv mv arg r.2.vars ∧ r.2.memo = memo := by
+      r.2.n = (iterModel E oS oD arg n a).2.2 ∧
+      FrameOK tv mv arg (un ++ if iterFails E oS oD arg n a then [nm] else []) r.2.vars ∧ r.2.memo = memo := by
   intro r
   have hb : ∃ b, mainBody = b := ⟨_, rfl⟩
   obtain ⟨body, hbody⟩ := hb
@@ -97,7 +111,7 @@ theorem body_spec (E : Env) (oS oD : Nat) (arg : Option CopyMode) (tv mv : Val) 
   have hev : ∀ k, a.decl.kind = k → k ≠ .event → k ≠ .property → typeStr k = "trait" := by
     intro k _ h1 h2; cases k <;> simp_all [typeStr]
   by_cases hke : a.decl.kind = .event
-  · pyp_exec [iterModel, FrameOK, hke, typeStr]
+  · pyp_exec [iterModel, iterFails, FrameOK, hke, typeStr]
   · have hts : typeStr a.decl.kind = "trait" := hev _ rfl hke hk
     rcases hcp : a.decl.copy with _ | cm
     · rcases arg with _ | am
@@ -125,10 +139,21 @@ theorem cloneSlot_iter (E : Env) (oS oD : Nat) (arg : Option CopyMode) (all : Bo
   · simp
   · rcases has : assignSlot E oD n1 ⟨a.decl, none⟩ v with e | ⟨d', n2⟩ <;> simp [has]
 
+theorem cloneSlotFails_iter (E : Env) (oS oD : Nat) (arg : Option CopyMode) (all : Bool) (p : Decl → Bool)
+    (hp : ∀ d, (d.copyable || (all && d.kind != .event)) = (p d && d.kind != .event)) (n : Nat) (a : Slot) :
+    cloneSlotFails E oS oD arg all n a = if p a.decl then iterFails E oS oD arg n a else false := by
+  unfold cloneSlotFails iterFails
+  rw [hp a.decl]
+  by_cases h1 : p a.decl = true <;> by_cases h2 : a.decl.kind = .event <;> simp [h1, h2]
+  rcases hcv : copyValue E (effMode a.decl.copy arg) (readSlot E oS n a).2.2 (readSlot E oS n a).1 with e | ⟨v, n1⟩
+  · simp
+  · rcases has : assignSlot E oD n1 ⟨a.decl, none⟩ v with e | ⟨d', n2⟩ <;> simp [has]
+
 theorem loop_spec (E : Env) (oS oD : Nat) (arg : Option CopyMode) (tv mv : Val) (hmv : mv = .none ∨ mv = .memo)
     (all : Bool) (p : Decl → Bool)
     (hp : ∀ d, (d.copyable || (all && d.kind != .event)) = (p d && d.kind != .event)) (memo : List (String × Val)) :
-    ∀ (src : List Slot), (∀ sl ∈ src, sl.decl.kind ≠ .property) → ∀ (n : Nat) (vars : Frame), FrameOK tv mv arg vars →
+    ∀ (src : List Slot), (∀ sl ∈ src, sl.decl.kind ≠ .property) → ∀ (n : Nat) (un : List String) (vars : Frame),
+      FrameOK tv mv arg un vars →
       (loopB E oS oD mainBody 10 p memo src (src.map fun sl => ⟨sl.decl, none⟩) n vars).1 = .next ∧
       (loopB E oS oD mainBody 10 p memo src (src.map fun sl => ⟨sl.decl, none⟩) n vars).2.1 =
         (cloneL E oS oD arg all n src).2.1 ∧
@@ -136,17 +161,19 @@ theorem loop_spec (E : Env) (oS oD : Nat) (arg : Option CopyMode) (tv mv : Val) 
         (cloneL E oS oD arg all n src).1 ∧
       (loopB E oS oD mainBody 10 p memo src (src.map fun sl => ⟨sl.decl, none⟩) n vars).2.2.2.1 =
         (cloneL E oS oD arg all n src).2.2 ∧
-      FrameOK tv mv arg (loopB E oS oD mainBody 10 p memo src (src.map fun sl => ⟨sl.decl, none⟩) n vars).2.2.2.2 := by
+      FrameOK tv mv arg (un ++ cloneUnassignable E oS oD arg all n src)
+        (loopB E oS oD mainBody 10 p memo src (src.map fun sl => ⟨sl.decl, none⟩) n vars).2.2.2.2 := by
   intro src
   induction src with
-  | nil => intro _ n vars hf; simp [loopB, cloneL, hf]
+  | nil => intro _ n un vars hf; simp [loopB, cloneL, cloneUnassignable, hf]
   | cons a as ih =>
-    intro hnd n vars hf
+    intro hnd n un vars hf
     have hka : a.decl.kind ≠ .property := hnd a (List.mem_cons_self)
     have hnd' : ∀ sl ∈ as, sl.decl.kind ≠ .property := fun sl h => hnd sl (List.mem_cons_of_mem _ h)
-    simp only [List.map_cons, loopB, cloneL, cloneSlot_iter E oS oD arg all p hp]
+    simp only [List.map_cons, loopB, cloneL, cloneUnassignable, cloneSlot_iter E oS oD arg all p hp,
+      cloneSlotFails_iter E oS oD arg all p hp]
     by_cases hpa : p a.decl = true
-    · obtain ⟨un, x10, x11, x12, x13, x14, rfl⟩ := hf
+    · obtain ⟨x10, x11, x12, x13, x14, rfl⟩ := hf
       have hset : (ctFrame tv mv arg un x10 x11 x12 x13 x14).set 10 (some (.name a.decl.name)) =
           ctFrame tv mv arg un (some (.name a.decl.name)) x11 x12 x13 x14 := rfl
       have hb := body_spec E oS oD arg tv mv hmv a hka n memo un a.decl.name x11 x12 x13 x14
@@ -155,11 +182,13 @@ theorem loop_spec (E : Env) (oS oD : Nat) (arg : Option CopyMode) (tv mv : Val) 
         ctFrame tv mv arg un (some (.name a.decl.name)) x11 x12 x13 x14, memo⟩ with ⟨f, s'⟩
       simp only [hex] at hb
       obtain ⟨hfl, h1, h2, h3, h4, h5⟩ := hb
-      have ih' := ih hnd' s'.n s'.vars h4
+      have ih' := ih hnd' s'.n _ s'.vars h4
       rw [h3] at ih'
-      rcases hfl with rfl | rfl <;> simp [h1, h2, h3, ih']
+      obtain ⟨i1, i2, i3, i4, i5⟩ := ih'
+      rw [List.append_assoc] at i5
+      rcases hfl with rfl | rfl <;> simp [h1, h2, h3, i1, i2, i3, i4, i5]
     · have hpa' : p a.decl = false := by simpa using hpa
-      have ih' := ih hnd' n vars hf
+      have ih' := ih hnd' n un vars hf
       simp [hpa', ih']
 
 theorem loopB_none (E : Env) (oS oD : Nat) (body : Stmt) (i : Nat) (p : Decl → Bool) (hp : ∀ d, p d = false)
@@ -254,10 +283,13 @@ def cloneLog : List String :=
    "_post_init_trait_observers", "traits_init", "_trait_set_inited"]
 
 set_option maxHeartbeats 4000000 in
-theorem clone_is_source (E : Env) (s : Obj) (o' n : Nat) (arg : Option CopyMode)
-    (hnd : ∀ sl ∈ s.slots, sl.decl.kind ≠ .property) :
+theorem clone_gen (E : Env) (s : Obj) (o' n : Nat) (arg : Option CopyMode)
+    (hnd : ∀ sl ∈ s.slots, sl.decl.kind ≠ .property) (kwn : List String) (kwv : List Val) (m0 : List (String × Val))
+    (hcall : (kwn = ["copy"] ∧ kwv = [argVal arg] ∧ m0 = []) ∨
+      (kwn = ["memo", "traits", "copy"] ∧ kwv = [.memo, .none, argVal arg] ∧ m0 = []) ∨
+      (kwn = ["memo", "traits", "copy"] ∧ kwv = [.memo, .none, argVal arg] ∧ m0 = [("traits_copy_mode", argVal arg)])) :
     ∃ ts, runMethod E s.oid o' (progHandler E s.oid o' hasTraitsProg noHandler) "clone_traits" (.obj false) []
-        ["copy"] [argVal arg] ⟨s.slots, [], n, [], [], []⟩ = some (.ok (.obj true), ts) ∧
+        kwn kwv ⟨s.slots, [], n, [], m0, []⟩ = some (.ok (.obj true), ts) ∧
       ts.dst = (cloneTraits E s o' arg n).copy.slots ∧ ts.src = (cloneTraits E s o' arg n).orig.slots ∧
       ts.n = (cloneTraits E s o' arg n).next ∧
       ts.log = (if (s.slots.filter (fun sl => sl.decl.copyable)).length = 0 then cloneLog.eraseIdx 2 else cloneLog) ∧
@@ -276,6 +308,7 @@ theorem clone_is_source (E : Env) (s : Obj) (o' n : Nat) (arg : Option CopyMode)
         rw [List.length_eq_zero_iff.mp hc] at this
         cases this
     have hsk := cloneL_skip E s.oid o' arg s.slots n hall
+    rcases hcall with ⟨rfl, rfl, rfl⟩ | ⟨rfl, rfl, rfl⟩ | ⟨rfl, rfl, rfl⟩ <;>
     rcases arg with _ | am <;> (try cases am) <;>
       pyt_exec [progHandler, hc, argVal, modeStr, memoSet, memoGet, cloneTraits, hsk, cloneLog]
   · have hp : ∀ d : Decl, (d.copyable || (false && d.kind != .event)) = (Decl.copyable d && d.kind != .event) := by
@@ -289,13 +322,176 @@ theorem clone_is_source (E : Env) (s : Obj) (o' n : Nat) (arg : Option CopyMode)
         exact ⟨x, (List.mem_filter.mp hx).1, (List.mem_filter.mp hx).2⟩
     have hl := loop_spec E s.oid o' arg (.names Decl.copyable) .memo (Or.inr rfl) false Decl.copyable hp
         [("traits_copy_mode", argVal arg), ("#id", .obj true)] s.slots hnd n
-        (ctFrame (.names Decl.copyable) .memo arg [] none none none none none) ⟨[], none, none, none, none, none, rfl⟩
+        [] (ctFrame (.names Decl.copyable) .memo arg [] none none none none none) ⟨none, none, none, none, none, rfl⟩
     rw [hbody] at hl
     subst hbody'
-    obtain ⟨h1, h2, h3, h4, un', y10, y11, y12, y13, y14, h5⟩ := hl
+    obtain ⟨h1, h2, h3, h4, y10, y11, y12, y13, y14, h5⟩ := hl
+    rcases hcall with ⟨rfl, rfl, rfl⟩ | ⟨rfl, rfl, rfl⟩ | ⟨rfl, rfl, rfl⟩ <;>
     rcases arg with _ | am <;> (try cases am) <;>
       simp [ctFrame, argVal, modeStr] at h1 h2 h3 h4 h5 <;>
       pyt_exec [progHandler, hc, hex, argVal, modeStr, memoSet, memoGet, cloneTraits, cloneLog, h1, h2, h3, h4, h5,
         loopB_none]
+
+theorem clone_is_source (E : Env) (s : Obj) (o' n : Nat) (arg : Option CopyMode)
+    (hnd : ∀ sl ∈ s.slots, sl.decl.kind ≠ .property) :
+    ∃ ts, runMethod E s.oid o' (progHandler E s.oid o' hasTraitsProg noHandler) "clone_traits" (.obj false) []
+        ["copy"] [argVal arg] ⟨s.slots, [], n, [], [], []⟩ = some (.ok (.obj true), ts) ∧
+      ts.dst = (cloneTraits E s o' arg n).copy.slots ∧ ts.src = (cloneTraits E s o' arg n).orig.slots ∧
+      ts.n = (cloneTraits E s o' arg n).next ∧
+      ts.log = (if (s.slots.filter (fun sl => sl.decl.copyable)).length = 0 then cloneLog.eraseIdx 2 else cloneLog) ∧
+      memoGet ts.memo "traits_copy_mode" = some (argVal arg) :=
+  clone_gen E s o' n arg hnd _ _ _ (Or.inl ⟨rfl, rfl, rfl⟩)
+
+/-! ## `__deepcopy__` -/
+
+def deepcopyFn : Func := (lookupFn "__deepcopy__" hasTraitsProg).getD ⟨[], false, 0, .skip⟩
+
+theorem progHandler_eq (E : Env) (oS oD : Nat) (H : Handler) (m : String) (r : Bool) (as : List Val)
+    (kwn : List String) (kwv : List Val) (s : TS) :
+    progHandler E oS oD hasTraitsProg H m r as kwn kwv s = runMethod E oS oD H m (.obj r) as kwn kwv s := rfl
+
+/-- A method replaces the frame and puts the caller's back: the caller's frame does not matter. -/
+theorem runMethod_vars (E : Env) (oS oD : Nat) (H : Handler) (m : String) (self : Val) (as : List Val)
+    (kwn : List String) (kwv : List Val) (src dst : List Slot) (n : Nat) (v : Frame) (memo : List (String × Val))
+    (log : List String) :
+    runMethod E oS oD H m self as kwn kwv ⟨src, dst, n, v, memo, log⟩ =
+      match runMethod E oS oD H m self as kwn kwv ⟨src, dst, n, [], memo, log⟩ with
+      | some (r, t) => some (r, { t with vars := v })
+      | none => none := by
+  unfold runMethod runFn
+  cases lookupFn m hasTraitsProg with
+  | none => rfl
+  | some f =>
+    simp only
+    cases bindParams f.params as kwn kwv with
+    | none => rfl
+    | some ps =>
+      simp only
+      rcases execT E oS oD H f.body _ with ⟨fl, s'⟩
+      cases fl <;> rfl
+
+/-- Where `__deepcopy__` is called from: `none` = `copy.deepcopy(obj)` itself (empty memo); `some a` = on an object
+reached while `clone_traits(copy=a)` copies a value deeply (the memo holds the outer mode). -/
+def dcMemo : Option (Option CopyMode) → List (String × Val)
+  | none => []
+  | some a => [("traits_copy_mode", argVal a)]
+
+/-- The `copy` argument `__deepcopy__` hands to `clone_traits`. -/
+def dcArg : Option (Option CopyMode) → Option CopyMode
+  | none => some .deep
+  | some a => a
+
+set_option maxHeartbeats 4000000 in
+theorem deepcopy_is_source (E : Env) (s : Obj) (o' n : Nat) (outer : Option (Option CopyMode))
+    (hnd : ∀ sl ∈ s.slots, sl.decl.kind ≠ .property) :
+    ∃ ts, runFn E s.oid o' (progHandler E s.oid o' hasTraitsProg (progHandler E s.oid o' hasTraitsProg noHandler))
+        deepcopyFn (.obj false) [.memo] [] [] ⟨s.slots, [], n, [], dcMemo outer, []⟩ = some (.ok (.obj true), ts) ∧
+      ts.dst = (cloneTraits E s o' (dcArg outer) n).copy.slots ∧
+      ts.src = (cloneTraits E s o' (dcArg outer) n).orig.slots ∧
+      ts.n = (cloneTraits E s o' (dcArg outer) n).next := by
+  have hb : ∃ f, deepcopyFn = f := ⟨_, rfl⟩
+  obtain ⟨f, hf⟩ := hb
+  have hf' := hf
+  simp [deepcopyFn, hasTraitsProg, lookupFn] at hf'
+  rw [hf]
+  subst hf'
+  cases outer with
+  | none =>
+    obtain ⟨ts, hrun, h1, h2, h3, _, _⟩ := clone_gen E s o' n (some .deep) hnd _ _ _ (Or.inr (Or.inl ⟨rfl, rfl, rfl⟩))
+    refine ⟨{ ts with vars := [] }, ?_, h1, h2, h3⟩
+    simp [argVal, modeStr] at hrun
+    simp [runFn, bindParams, execT, callT, objCall, reduceTriple, eval, evalAll,
+      TS.ctx, getVar, memoMethod, memoGet, lifecycle, Val.asObj, Val.asStr, Val.isMemo, Expr.asGlob, dcMemo,
+      progHandler_eq]
+    rw [runMethod_vars, hrun]
+  | some a =>
+    obtain ⟨ts, hrun, h1, h2, h3, _, _⟩ := clone_gen E s o' n a hnd _ _ _ (Or.inr (Or.inr ⟨rfl, rfl, rfl⟩))
+    refine ⟨{ ts with vars := [] }, ?_, h1, h2, h3⟩
+    simp [runFn, bindParams, execT, callT, objCall, reduceTriple, eval, evalAll,
+      TS.ctx, getVar, memoMethod, memoGet, lifecycle, Val.asObj, Val.asStr, Val.isMemo, Expr.asGlob, dcMemo,
+      progHandler_eq]
+    rw [runMethod_vars, hrun]
+
+/-- The `traits` argument of a direct call of `copy_traits`. -/
+def traitsArg (all : Bool) : Val := if all then .str "all" else .none
+
+set_option maxHeartbeats 4000000 in
+/-- `new.copy_traits(other, traits, memo, copy)` - whole function - for `traits=None` / `traits="all"`, `memo`
+given or not: the slots are those of `cloneL` and the value returned is `cloneUnassignable`. -/
+theorem copyTraits_is_source (E : Env) (oS oD n : Nat) (src : List Slot) (arg : Option CopyMode) (all : Bool)
+    (mv : Val) (hmv : mv = .none ∨ mv = .memo) (hnd : ∀ sl ∈ src, sl.decl.kind ≠ .property) :
+    ∃ ts, runMethod E oS oD noHandler "copy_traits" (.obj true) [.obj false, traitsArg all, mv, argVal arg] [] []
+        ⟨src, src.map fun sl => ⟨sl.decl, none⟩, n, [], [], []⟩ =
+          some (.ok (.nameList (cloneUnassignable E oS oD arg all n src)), ts) ∧
+      ts.dst = (cloneL E oS oD arg all n src).1 ∧ ts.src = (cloneL E oS oD arg all n src).2.1 ∧
+      ts.n = (cloneL E oS oD arg all n src).2.2 ∧
+      memoGet ts.memo "traits_to_copy" = (if all && mv.isMemo then some (Val.str "all") else none) := by
+  have hb : ∃ b, mainBody = b := ⟨_, rfl⟩
+  obtain ⟨body, hbody⟩ := hb
+  have hbody' := hbody
+  simp [mainBody, copyTraitsFn, hasTraitsProg, lookupFn, forLoops] at hbody'
+  have key : ∀ (p : Decl → Bool) (mem : List (String × Val)),
+      (∀ d : Decl, (d.copyable || (all && d.kind != .event)) = (p d && d.kind != .event)) → _ :=
+    fun p mem hp => loop_spec E oS oD arg (.names p) mv hmv all p hp mem src hnd n
+      [] (ctFrame (.names p) mv arg [] none none none none none) ⟨none, none, none, none, none, rfl⟩
+  rw [hbody] at key
+  subst hbody'
+  cases all
+  · have hp : ∀ d : Decl, (d.copyable || (false && d.kind != .event)) = (Decl.copyable d && d.kind != .event) := by
+      intro d
+      cases hk : d.kind <;> cases ht : d.transient <;> simp [Decl.copyable, hk, ht]
+    obtain ⟨h1, h2, h3, h4, y10, y11, y12, y13, y14, h5⟩ := key Decl.copyable [] hp
+    rcases hmv with rfl | rfl <;> rcases arg with _ | am <;> (try cases am) <;>
+      simp [ctFrame, argVal, modeStr] at h1 h2 h3 h4 h5 <;>
+      pyt_exec [traitsArg, argVal, modeStr, memoSet, memoGet, h1, h2, h3, h4, h5, loopB_none]
+  · have hp : ∀ d : Decl, (d.copyable || (true && d.kind != .event)) = ((fun _ => true) d && d.kind != .event) := by
+      intro d
+      cases hk : d.kind <;> cases ht : d.transient <;> simp [Decl.copyable, hk, ht]
+    rcases hmv with rfl | rfl
+    · obtain ⟨h1, h2, h3, h4, y10, y11, y12, y13, y14, h5⟩ := key (fun _ => true) [] hp
+      rcases arg with _ | am <;> (try cases am) <;>
+        simp [ctFrame, argVal, modeStr] at h1 h2 h3 h4 h5 <;>
+        pyt_exec [traitsArg, argVal, modeStr, memoSet, memoGet, h1, h2, h3, h4, h5, loopB_none]
+    · obtain ⟨h1, h2, h3, h4, y10, y11, y12, y13, y14, h5⟩ := key (fun _ => true) [("traits_to_copy", .str "all")] hp
+      rcases arg with _ | am <;> (try cases am) <;>
+        simp [ctFrame, argVal, modeStr] at h1 h2 h3 h4 h5 <;>
+        pyt_exec [traitsArg, argVal, modeStr, memoSet, memoGet, h1, h2, h3, h4, h5, loopB_none]
+
+/-! ## The container objects -/
+
+def okDict : Option (Except Exc RS) → Option Rec
+  | some (.ok r) => some r.dict
+  | _ => none
+
+def okSelf : Option (Except Exc RS) → Option Rec
+  | some (.ok r) => r.selfDict
+  | _ => none
+
+/-- The translated methods of the container class of each kind. -/
+def progOf : Kind → List (String × Func)
+  | .lst => traitListObjectProg | .dct => traitDictObjectProg | .st => traitSetObjectProg
+
+/-- What `__getstate__` must return: the instance dictionary without `object` and `trait`. -/
+def stateDict : Rec := recDel (recDel containerDict "object") "trait"
+
+theorem container_state (k : Kind) :
+    okDict (runRec (progOf k) "__getstate__" containerDict) = some stateDict ∧
+    (∃ r, okSelf (runRec (progOf k) "__setstate__" stateDict) = some r ∧ restoredOK r = true ∧
+      recGet r "name" = some .kept) ∧
+    (∃ r, okSelf (runRec (progOf k) "__setstate__" (recDel stateDict "name")) = some r ∧ restoredOK r = true ∧
+      recGet r "name" = some .emptyStr) := by
+  cases k <;> refine ⟨by decide, ⟨_, rfl, by decide, by decide⟩, ⟨_, rfl, by decide, by decide⟩⟩
+
+theorem container_deepcopy (k : Kind) (b : Binding) :
+    runDeepcopy (progOf k) k b = some (ctorBinding (bindingTrait b)) := by
+  cases k <;> rfl
+
+theorem deepcopyV_node (n : Nat) (k : Kind) (i : Nat) (b : Binding) (hb : b ≠ .plain) (keys : List Leaf)
+    (kids : List CVal) :
+    deepcopyV n (.node k i b keys kids) =
+      match deepcopyL (n + 1) kids with
+      | .error e => .error e
+      | .ok (kids', n') => .ok (.node k n (ctorBinding (bindingTrait b)) (keys.map (Leaf.copiedAt n)) kids', n') := by
+  cases b <;> simp [deepcopyV, ctorBinding, bindingTrait] at hb ⊢ <;> split <;> simp_all
 
 end TraitsVerif.Lemmas.PersistSource
